@@ -203,3 +203,6 @@ META = dict(
     assumptions=[],
     explanation="every access path term-compared with direct inspection of the candle for all candle values and all indices",
 )
+
+# families added after the seeding rounds (kept next to the original bound so that MANIFEST / evidence stay current)
+META["bounds"] = dict(META["bounds"], quick=META["bounds"]["quick"] + "; added after the seeding rounds: " + "co-tenant removed half way; every explicit index live; purge + calculate_index + calculate; partner explicitly on the Hexital's timeframe; members pre-attached to other candles; Hexital.candles(timeframe) taken before data arrives")
